@@ -90,7 +90,13 @@ def sensitivity(argv):
             pid = name.split("_")[0].upper()
         else:
             with open(os.path.join(os.path.dirname(f), "meta.json")) as fh:
-                pid = json.load(fh)["property"]
+                meta = json.load(fh)
+            pid = meta["property"]
+            if meta.get("superseded_by"):
+                # a later repair of the library made this change harmless (its own demonstration passes with it): kept
+                # for the record, not counted
+                print(f"superseded {pid} seeded/{name}  no longer breaking since {meta['superseded_by'][:60]}...", flush=True)
+                continue
         work.append((f, pid, 4))
     missed = 0
     results = []
